@@ -202,6 +202,22 @@ func c03Scenarios(tier string) []*world.Scenario {
 			Faults: []world.Fault{{Kind: "backend-close", Addr: AddrA, AfterW: 1}}}
 		mk("backend-reconnect", "reconnect", sc)
 	}
+	// (g) production-size buffers: replies of 64 KiB and more parked for a slow reader while the request objects that
+	// carried them are recycled and reused by ANOTHER client before the backlog drains
+	for _, sz := range [][]int{{100, 70000, 70000}, {70000, 66000, 100}} {
+		sc := BigSlowRecycle("C03", sz, 60000, 2)
+		inner := sc.Check
+		sc.Check = func(w *world.World) []world.Violation {
+			vs := inner(w)
+			for i := range vs {
+				vs[i].Sig = "stale-fragment-reply:recycled-while-parked"
+			}
+			return vs
+		}
+		sc.Family = "recycled-while-parked"
+		sc.ReuseFds = true
+		out = append(out, sc)
+	}
 	// (f) backend connections that start with a handshake (AUTH and/or READONLY): the handshake replies under every
 	// segmentation with <= 2 cuts; none of them may surface as the reply to a client's request
 	for mask := 0; mask < 512; mask++ {
